@@ -89,8 +89,8 @@ func (g *gen) value(gt, pt types.Type) (string, string) {
 	}
 	g.depth++
 	defer func() { g.depth-- }()
-	if g.depth > 6 {
-		g.skip = "nesting deeper than 6"
+	if g.depth > 9 {
+		g.skip = "nesting deeper than 9"
 		return "nil", "nil"
 	}
 	gp := namedPath(gt)
@@ -111,11 +111,15 @@ func (g *gen) value(gt, pt types.Type) (string, string) {
 		g.decls = append(g.decls, fmt.Sprintf("%s := %s.LegacyNewDecWithPrec(%d, 2)", v, g.imp("cosmossdk.io/math"), 100+g.n))
 		return v, fmt.Sprintf("c20Text(%s)", v)
 	case "time.Time", "time.Duration":
-		g.skip = "time value (the pulsar side marshals well-known types through protobuf-go's unsafe fast path)"
-		return "nil", "nil"
+		return g.timeValue(gp, pt, false)
 	case "github.com/cosmos/cosmos-sdk/codec/types.Any", "github.com/cosmos/gogoproto/types.Any":
 		g.skip = "Any"
 		return "nil", "nil"
+	}
+	if ptr, ok := gt.(*types.Pointer); ok {
+		if ep := namedPath(ptr.Elem()); ep == "time.Time" || ep == "time.Duration" {
+			return g.timeValue(ep, pt, true)
+		}
 	}
 	switch gu := gt.Underlying().(type) {
 	case *types.Basic:
@@ -210,11 +214,76 @@ func (g *gen) value(gt, pt types.Type) (string, string) {
 		a, b := g.structLit(gt, pp.Elem())
 		return a, "&" + b
 	case *types.Map:
-		g.skip = "map field"
-		return "nil", "nil"
+		// one entry (with two or more the modules family writes them in Go map order unless the file asks
+		// for stable marshalling - entry order is outside the claim); string keys and string values may be
+		// empty: an entry always carries both its key and its value field, default or not
+		pm, ok := pt.Underlying().(*types.Map)
+		if !ok {
+			g.skip = fmt.Sprintf("MISMATCH: %s: map in the modules family vs %s", strings.Join(g.path, "."), pt)
+			return "nil", "nil"
+		}
+		entry := func(gt, pt types.Type) (string, string) {
+			gb, ok1 := gt.Underlying().(*types.Basic)
+			pb, ok2 := pt.Underlying().(*types.Basic)
+			if ok1 && ok2 && gb.Kind() == types.String && pb.Kind() == types.String {
+				v := g.fresh("ms")
+				g.decls = append(g.decls, fmt.Sprintf("%s := %q\n\tif sel == %d {\n\t\t%s = \"\"\n\t}", v, v, g.leaves, v))
+				g.leaves++
+				return fmt.Sprintf("%s(%s)", g.typeStr(gt), v), fmt.Sprintf("%s(%s)", g.typeStr(pt), v)
+			}
+			return g.value(gt, pt)
+		}
+		gk, pk := entry(gu.Key(), pm.Key())
+		gv, pv := entry(gu.Elem(), pm.Elem())
+		return fmt.Sprintf("%s{%s: %s}", g.typeStr(gt), gk, gv), fmt.Sprintf("%s{%s: %s}", g.typeStr(pt), pk, pv)
 	}
 	g.skip = fmt.Sprintf("unsupported gogo field type %s", gt)
 	return "nil", "nil"
+}
+
+// timeValue: a time.Time / time.Duration of the modules family (stdtime / stdduration) against the api
+// family's *timestamppb.Timestamp / *durationpb.Duration; seconds and nanoseconds are symbolic leaves
+// within the range protobuf timestamps can carry.
+func (g *gen) timeValue(gp string, pt types.Type, pointer bool) (string, string) {
+	want := "google.golang.org/protobuf/types/known/timestamppb.Timestamp"
+	if gp == "time.Duration" {
+		want = "google.golang.org/protobuf/types/known/durationpb.Duration"
+	}
+	pp, ok := pt.(*types.Pointer)
+	if !ok || namedPath(pp.Elem()) != want {
+		g.skip = fmt.Sprintf("MISMATCH: %s: %s in the modules family vs %s", strings.Join(g.path, "."), gp, pt)
+		return "nil", "nil"
+	}
+	tm := g.imp("time")
+	if gp == "time.Time" {
+		sv, nv := g.fresh("ts"), g.fresh("tn")
+		g.decls = append(g.decls, fmt.Sprintf("%s := int64(%d)\n\tif sel == %d {\n\t\t%s = verifInt64(%q)\n\t\tverifAssume(%s >= -62135596800 && %s <= 253402300799)\n\t}", sv, 1700000000+g.n, g.leaves, sv, sv, sv, sv))
+		g.leaves++
+		g.decls = append(g.decls, fmt.Sprintf("%s := int64(%d)\n\tif sel == %d {\n\t\t%s = verifInt64(%q)\n\t\tverifAssume(%s >= 0 && %s < 1000000000)\n\t}", nv, 5+g.n, g.leaves, nv, nv, nv, nv))
+		g.leaves++
+		ge := fmt.Sprintf("%s.Unix(%s, %s).UTC()", tm, sv, nv)
+		if pointer {
+			tv := g.fresh("tp")
+			g.decls = append(g.decls, fmt.Sprintf("%s := %s", tv, ge))
+			ge = "&" + tv
+		}
+		return ge, fmt.Sprintf("&%s.Timestamp{Seconds: %s, Nanos: int32(%s)}", g.imp("google.golang.org/protobuf/types/known/timestamppb"), sv, nv)
+	}
+	// a duration is built from whole seconds and a nanosecond remainder of the same sign (the only form
+	// the wire format carries), within +-2^33 seconds (a time.Duration holds +-2^63 ns, about +-2^33.1 s)
+	sv, nv, dv := g.fresh("ds"), g.fresh("dn"), g.fresh("du")
+	g.decls = append(g.decls, fmt.Sprintf("%s := int64(%d)\n\tif sel == %d {\n\t\t%s = verifInt64(%q)\n\t\tverifAssume(%s > -(1<<33) && %s < 1<<33)\n\t}", sv, 3600+g.n, g.leaves, sv, sv, sv, sv))
+	g.leaves++
+	g.decls = append(g.decls, fmt.Sprintf("%s := int64(0)\n\tif sel == %d {\n\t\t%s = verifInt64(%q)\n\t\tverifAssume(%s > -1000000000 && %s < 1000000000 && (%s >= 0 || %s <= 0) && (%s <= 0 || %s >= 0))\n\t}", nv, g.leaves, nv, nv, nv, nv, sv, nv, sv, nv))
+	g.leaves++
+	g.decls = append(g.decls, fmt.Sprintf("%s := %s*1000000000 + %s", dv, sv, nv))
+	ge := fmt.Sprintf("%s.Duration(%s)", tm, dv)
+	if pointer {
+		tv := g.fresh("dp")
+		g.decls = append(g.decls, fmt.Sprintf("%s := %s", tv, ge))
+		ge = "&" + tv
+	}
+	return ge, fmt.Sprintf("&%s.Duration{Seconds: %s, Nanos: int32(%s)}", g.imp("google.golang.org/protobuf/types/known/durationpb"), sv, nv)
 }
 
 func (g *gen) structLit(gt, pt types.Type) (string, string) {
